@@ -8,7 +8,7 @@
 set -u
 export GOFLAGS=-mod=mod GOPROXY=off GOSUMDB=off GOTOOLCHAIN=local GOWORK=off
 sd=$(realpath "$1"); onrepo=${2:-}
-name=$(basename "$(dirname "$sd")")-$(basename "$sd")
+name=$(basename "$sd"); case "$name" in C[0-9][0-9]-*) ;; *) name=$(basename "$(dirname "$sd")")-$name;; esac
 logdir=${SEEDEVAL_LOGDIR:-/tmp/seedeval-logs}; mkdir -p "$logdir"
 wt=/tmp/sw-$name
 demo_dir=$(jq -r '.demo_dir // "."' "$sd/meta.json"); demo_cmd=$(jq -r .demo_cmd "$sd/meta.json")
